@@ -55,6 +55,10 @@ struct Slot
 
 struct World
 {
+    Slot slot2;       // second input of a combinator
+    std::unique_ptr<Async::Promise<int>> q;
+    std::unique_ptr<Async::Promise<Async::Any>> any;
+    std::unique_ptr<Async::Promise<std::tuple<int, int>>> all;
     Slot slot, inner; // inner: resolver / rejection of a promise that a continuation returned while still pending
     std::unique_ptr<Async::Promise<int>> p, d;
     std::unique_ptr<Async::Promise<void>> pv;
@@ -84,8 +88,13 @@ static const char* kScenarioNames[] = {
     "reject void promise || then",
     "reject the pending promise a continuation returned || then on the derived promise",
     "resolve the pending promise a continuation returned || then on the derived promise",
+    "whenAny(p,q): resolve p || resolve q",
+    "whenAny(p,q): resolve p || reject q",
+    "whenAny(p,q): reject p || resolve q",
+    "whenAll(p,q): resolve p || resolve q",
+    "whenAll(p,q): resolve p || reject q",
 };
-static const int kNScenarios = 13;
+static const int kNScenarios = 18;
 
 static std::string what(std::exception_ptr e)
 {
@@ -110,7 +119,7 @@ static void settle_thread(void* a)
     World* w = static_cast<World*>(a);
     try
     {
-        if (w->scenario == 2 || w->scenario == 6 || w->scenario == 10)
+        if (w->scenario == 2 || w->scenario == 6 || w->scenario == 10 || w->scenario == 15)
             (*w->slot.rej)(std::runtime_error("boom"));
         else if (w->scenario == 9)
             (*w->slot.res)();
@@ -169,6 +178,15 @@ static void attach_thread(void* a)
         }
         case 7:
             attach_to<0>(w, *w->p);
+            break;
+        case 13:
+        case 15:
+        case 16:
+            (*w->slot2.res)(6);
+            break;
+        case 14:
+        case 17:
+            (*w->slot2.rej)(std::runtime_error("bang"));
             break;
         }
     }
@@ -235,6 +253,33 @@ static void run_case(uint64_t idx, vr::Ctx& ctx)
             (*w->slot.res)(5);
             break;
         }
+        case 13:
+        case 14:
+        case 15:
+        case 16:
+        case 17: {
+            World* ww = w;
+            w->q.reset(new Async::Promise<int>([&](Async::Resolver& r, Async::Rejection& j) {
+                w->slot2.res.reset(new Async::Resolver(std::move(r)));
+                w->slot2.rej.reset(new Async::Rejection(std::move(j)));
+            }));
+            if (c.scenario <= 15)
+            {
+                w->any.reset(new Async::Promise<Async::Any>(Async::whenAny(*w->p, *w->q)));
+                w->any->then([ww](const Async::Any& a) { ww->k[0].runs++; ww->k[0].val = a.cast<int>(); },
+                             [ww](std::exception_ptr e) { ww->k[0].rejs++; ww->k[0].exc = what(e); });
+            }
+            else
+            {
+                w->all.reset(new Async::Promise<std::tuple<int, int>>(Async::whenAll(*w->p, *w->q)));
+                w->all->then([ww](const std::tuple<int, int>& t) { ww->k[0].runs++; ww->k[0].val = std::get<0>(t) * 10 + std::get<1>(t); },
+                             [ww](std::exception_ptr e) { ww->k[0].rejs++; ww->k[0].exc = what(e); });
+            }
+            // continuations attached to the inputs themselves, after the combinator: each must see its own input's outcome
+            attach_to<1>(w, *w->p);
+            attach_to<2>(w, *w->q);
+            break;
+        }
         case 3:
             w->d.reset(new Async::Promise<int>(w->p->then([](int v) { return v + 1; }, Async::Throw)));
             break;
@@ -265,6 +310,30 @@ static void run_case(uint64_t idx, vr::Ctx& ctx)
         };
         if (x.deadlock || x.horizon)
             ctx.violation(std::string("c12:") + (x.deadlock ? "deadlock" : "horizon") + ":" + kScenarioNames[c.scenario], detail("\"x\":0"));
+        else if (c.scenario >= 13)
+        {
+            for (int t = 0; t < 3; ++t)
+                if (!w->threw[t].empty())
+                    ctx.violation(std::string("c12:exception-in-the-settling-thread:") + kScenarioNames[c.scenario], detail("\"what\":" + vr::jstr(w->threw[t])));
+            bool pRej = c.scenario == 15, qRej = c.scenario == 14 || c.scenario == 17;
+            auto obs  = [&](int i) {
+                auto& k = w->k[i];
+                return "runs=" + std::to_string(k.runs) + " val=" + std::to_string(k.val) + " rejs=" + std::to_string(k.rejs) + " exc=" + k.exc;
+            };
+            auto& k0 = w->k[0];
+            bool ok0;
+            if (c.scenario <= 15) // any-of: the first outcome, whichever it is; exactly one delivery
+                ok0 = k0.runs + k0.rejs == 1 && (k0.runs ? ((k0.val == 5 && !pRej) || (k0.val == 6 && !qRej)) : ((k0.exc == "boom" && pRej) || (k0.exc == "bang" && qRej)));
+            else // all-of
+                ok0 = qRej ? (k0.runs == 0 && k0.rejs == 1 && k0.exc == "bang") : (k0.runs == 1 && k0.rejs == 0 && k0.val == 56);
+            if (!ok0)
+                ctx.violation(std::string("c12:") + (k0.runs + k0.rejs == 0 ? "continuation-lost" : k0.runs + k0.rejs > 1 ? "continuation-ran-twice" : "wrong-outcome") + ":" + kScenarioNames[c.scenario], detail("\"continuation\":0,\"observed\":" + vr::jstr(obs(0))));
+            bool ok1 = pRej ? (w->k[1].runs == 0 && w->k[1].rejs == 1 && w->k[1].exc == "boom") : (w->k[1].runs == 1 && w->k[1].rejs == 0 && w->k[1].val == 5);
+            bool ok2 = qRej ? (w->k[2].runs == 0 && w->k[2].rejs == 1 && w->k[2].exc == "bang") : (w->k[2].runs == 1 && w->k[2].rejs == 0 && w->k[2].val == 6);
+            if (!ok1 || !ok2)
+                ctx.violation(std::string("c12:continuation-on-a-combinator-input-lost-or-wrong:") + kScenarioNames[c.scenario], detail("\"on_p\":" + vr::jstr(obs(1)) + ",\"on_q\":" + vr::jstr(obs(2))));
+            ctx.outcome(std::string(kScenarioNames[c.scenario]) + " -> " + obs(0));
+        }
         else
         {
             int expectVal[] = { 5, 5, 0, 6, 6, 10, 0, 5, 16, 1, 0, 0, 7 };
@@ -316,11 +385,12 @@ int main(int argc, char** argv)
     vr::Options opt = vr::parse_args(argc, argv);
     bool thorough   = opt.geti("thorough", 0);
     int maxb        = opt.geti("maxbound", 2);
-    for (int s = 0; s < kNScenarios; ++s)
+    int from = opt.geti("from", 0), to = std::min<int>(opt.geti("to", kNScenarios - 1), kNScenarios - 1);
+    for (int s = from; s <= to; ++s)
         for (int b = 0; b <= maxb; ++b)
             gCases.push_back({ s, b, 0, 1 });
     if (thorough)
-        for (int s = 0; s < kNScenarios; ++s)
+        for (int s = from; s <= to; ++s)
         {
             if (s == 7)
                 for (int sh = 0; sh < 8; ++sh)
